@@ -1,4 +1,4 @@
-import CashewsVerif.Lemmas.TagsMatch
+import CashewsVerif.Lemmas.TagsDecor
 import CashewsVerif.Lemmas.TagTemplates
 /-
 C12 — `delete_tags` removes every live key carrying the tag, whatever the write order.
@@ -10,6 +10,9 @@ Reading guide.  `exec cfg init ops` is the state after an arbitrary history `ops
 key, or a pattern matching nothing), `delete_tags`, time advances and purge sweeps, started on the empty store.
 A decorated call is given by the key and the tags rendered from its arguments at call time
 (`decorator_tags_are_call_time_tags`, `decorator_tags_are_registry_tags` in the second layer).
+The simple `@cache` is the command `.call` (one write, on a miss); the decorators that write a live entry again -
+`early`, `soft`, `hit` / `dynamic` - are the programs `earlyCall`, `softCall`, `hitCall` over these commands
+(`DecorCall`; section "decorators that write a live entry again").
 `trace cfg init ops` pairs every command with its result; `latestTags k trace` is the tag list of
 the latest command in the trace that wrote `k` ("the latest write of `k` carried ...").
 `readable s k` is what `get k` returns in state `s`.  The model has no capacity: the property's
@@ -236,6 +239,103 @@ theorem latest_ttl_rule_incomplete :
     let s3 := (step cfg s2 (.adv 16)).1
     0 ∈ s3.last 0 ∧ readable (step cfg s3 (.deleteTags [0])).1 0 = some (.tok 1) := by decide
 
+/-! ### decorators that write a live entry again (`early`, `soft`, `hit`, `dynamic`) -/
+
+/-- **Completeness for tags attached by any decorator, on every write path.**  `DecorCall` is a call of a function
+decorated with `tags=` - by the simple `@cache`, by `early` (miss; recalculation ahead of the deadline, in the foreground or
+in a background task), by `soft` (miss; recomputation after the soft deadline) or by `hit` / `dynamic` (miss; update at
+`update_after` hits; recomputation beyond `cache_hits`) - given as the wrapper commands it issues.  After any history
+`ops`, if the body of such a call ran (so the decorator wrote the key - for the first time or **again, over the live entry,
+with a new deadline**), then after any further commands `mid` that do not write `k` (in particular time running past
+the deadline the entry had before the re-write), a `delete_tags` of one of the call's tags leaves `k` unreadable,
+immediately and after any `post` that does not write `k`.  This is `delete_tags_complete` for a history that contains the
+decorator's program: a re-write is a tagged write like any other. -/
+theorem decorated_write_delete_tags_complete (cfg : Cfg) (hb : 0 < cfg.batch) (ops : List TOp) (k : Nat) (ttl : Option Nat)
+    (tags : List Nat) (p : List TOp × Out) (hp : DecorCall cfg (exec cfg init ops) k ttl tags p) (hran : bodyRan p.2 = true)
+    (mid : List TOp) (hmid : ∀ op ∈ mid, op.writes k = false) (tl : List Nat) (t : Nat) (hmem : t ∈ tl) (ht : t ∈ tags)
+    (post : List TOp) (hpost : ∀ op ∈ post, op.writes k = false) :
+    let s' := exec cfg init (ops ++ p.1 ++ mid ++ .deleteTags tl :: post)
+    readable s' k = none ∧ (step cfg s' (.get k)).2 = .val none ∧ (step cfg s' (.exists_ k)).2 = .bool false := by
+  apply delete_tags_complete cfg hb (ops ++ p.1 ++ mid) tl t k hmem _ post hpost
+  rw [← last_eq_latestTags, exec_append, exec_append, exec_last_frame cfg mid _ k hmid, decorCall_last hp hran]
+  exact ht
+
+/-- **A re-write moves the tag sets along with the key.**  After any history, when a decorator stores a result under
+`k` with a ttl and the call's tags (first write or re-write: the key's deadline becomes `now + ttl`), every tag set of the
+call holds `k` and has no deadline or one that is not earlier than the key's new deadline - whatever deadline the set had
+before (e.g. that of the first write, which the re-write outlives). -/
+theorem rewrite_moves_tag_sets_along (cfg : Cfg) (ops : List TOp) (k : Nat) (v : Val) (ttl : Nat) (tags : List Nat) (t : Nat)
+    (ht : t ∈ tags) :
+    let s' := exec cfg init (ops ++ [decorWrite k v (some (ttl + 1)) tags])
+    s'.kv k = some ⟨v, some (s'.now + (ttl + 1))⟩ ∧
+    ∃ se, s'.ts t = some se ∧ k ∈ members se ∧ (se.dl = none ∨ ∃ d', se.dl = some d' ∧ s'.now + (ttl + 1) ≤ d') := by
+  intro s'
+  have hs : s' = ((exec cfg init ops).writeTagged k v (some (ttl + 1)) tags) := by
+    show exec cfg init (ops ++ [decorWrite k v (some (ttl + 1)) tags]) = _
+    rw [exec_append]; rfl
+  have hnow : s'.now = (exec cfg init ops).now := by rw [hs, writeTagged_now]
+  have hkv : s'.kv k = some ⟨v, some (s'.now + (ttl + 1))⟩ := by
+    rw [hnow, hs, writeTagged_kv]
+    simp [St.rawSet, upd, deadlineOf]
+  refine ⟨hkv, ?_⟩
+  have hlast : t ∈ latestTags k (trace cfg init (ops ++ [decorWrite k v (some (ttl + 1)) tags])) := by
+    rw [← last_eq_latestTags]
+    have := last_after_decorWrite cfg init ops [] k v (some (ttl + 1)) tags (by simp)
+    rw [this]; exact ht
+  have hl : (⟨v, some (s'.now + (ttl + 1))⟩ : Entry).live s'.now = true := by simp [Entry.live]
+  obtain ⟨se, h1, h2, _, h4⟩ := tag_invariant cfg (ops ++ [decorWrite k v (some (ttl + 1)) tags]) k t _ hlast hkv hl
+  refine ⟨se, h1, h2, ?_⟩
+  rcases h4 with h | ⟨d, d', hd, hd', hle⟩
+  · exact Or.inl h
+  · right
+    refine ⟨d', hd', ?_⟩
+    simp at hd
+    omega
+
+/-- keys 0 (data), 1 (its lock), registry: key 0 ↦ tag 0 -/
+def cfgDec : Cfg := { tagOf := fun k => if k = 0 then [0] else [], batch := 100, keys := [0, 1] }
+
+/-- the premises of `decorated_write_delete_tags_complete` are satisfiable on the re-write path, and its conclusion is not
+trivial: an `early` function (ttl 800, early_ttl 80, tag 0) is called at 0 and again at 400 - past the early deadline 80,
+the entry (deadline 800) still alive -: the second call recalculates (`bodyRan`), the entry's deadline moves to 1200 and so
+does the tag set's; at 900 - past the original deadline - the key is readable and `delete_tags 0` removes it -/
+example :
+    let ops := (earlyCall cfgDec init 0 1 1 (some 800) 80 [0]).1 ++ [.adv 400]
+    let p := earlyCall cfgDec (exec cfgDec init ops) 0 1 2 (some 800) 80 [0]
+    bodyRan p.2 = true ∧ readable (exec cfgDec init ops) 0 = some (.nums [80, 1]) ∧
+    p.1 = [.get 0, .set 1 (.tok 1) (some 80) .nx [], decorWrite 0 (.nums [480, 2]) (some 800) [0], .delete 1] ∧
+    readable (exec cfgDec init (ops ++ p.1 ++ [.adv 500])) 0 = some (.nums [480, 2]) ∧
+    ((exec cfgDec init (ops ++ p.1 ++ [.adv 500])).ts 0).map (fun e => (members e, e.dl)) = some ([0], some 1200) ∧
+    readable (exec cfgDec init (ops ++ p.1 ++ [.adv 500, .deleteTags [0]])) 0 = none := by decide
+
+/-- `soft` (soft_ttl 80: recomputation at 400) and `hit` (cache_hits 3, update_after 2: the third call updates; key 2,
+counter 3) reach their re-writes too -/
+example :
+    let cfg : Cfg := { tagOf := fun k => if k = 0 ∨ k = 2 ∨ k = 3 then [0] else [], batch := 100, keys := [0, 1, 2, 3] }
+    let s1 := exec cfg init ((softCall cfg init 0 1 (some 800) 80 [0]).1 ++ [.adv 400])
+    let h1 := exec cfg init (hitCall cfg init 2 3 1 (some 800) [0] 3 2).1
+    let h2 := exec cfg h1 (hitCall cfg h1 2 3 2 (some 800) [0] 3 2).1
+    (softCall cfg s1 0 2 (some 800) 80 [0]).2 = .vals [some (.tok 2)] ∧ readable s1 0 = some (.nums [80, 1]) ∧
+    (hitCall cfg h1 2 3 2 (some 800) [0] 3 2).2 = .val (some (.tok 1)) ∧
+    hitCall cfg h2 2 3 3 (some 800) [0] 3 2 =
+      ([.get 2, .incr 3 1 (some 800) [0], .delete 3, decorWrite 2 (.tok 3) (some 800) [0]], .vals [some (.tok 3)]) := by decide
+
+/-- **Re-writing without the tags breaks the property.**  The variant of `early` whose recalculation stores the fresh
+result with `tags=()` "because the key is already a member of its tag sets" (`earlyCallWith false`): the first call at 0
+files the entry (deadline 800) under tag 0, whose set gets deadline 800; the recalculation at 400 moves the key's deadline to
+1200 but not the set's; at 900 the set is gone, the key - whose latest write is the decorator's, for a call tagged 0 - is
+alive, and `delete_tags 0` misses it.  With the tags (`earlyCall`) the same history ends with the key removed. -/
+theorem untagged_refresh_incomplete :
+    let ops := (earlyCall cfgDec init 0 1 1 (some 800) 80 [0]).1 ++ [.adv 400]
+    let s1 := exec cfgDec init ops
+    let good := earlyCall cfgDec s1 0 1 2 (some 800) 80 [0]
+    let bad := earlyCallWith false cfgDec s1 0 1 2 (some 800) 80 [0]
+    bodyRan good.2 = true ∧ bodyRan bad.2 = true ∧
+    readable (exec cfgDec s1 (good.1 ++ [.adv 500, .deleteTags [0]])) 0 = none ∧
+    readable (exec cfgDec s1 (bad.1 ++ [.adv 500])) 0 = some (.nums [480, 2]) ∧
+    (liveAt 900 (exec cfgDec s1 (bad.1 ++ [.adv 500])).ts 0) = none ∧
+    readable (exec cfgDec s1 (bad.1 ++ [.adv 500, .deleteTags [0]])) 0 = some (.nums [480, 2]) := by decide
+
 /-! ### second layer: the registry's template matching (what makes templated tags `Registered`) -/
 
 open CashewsVerif.TagTpl in
@@ -304,6 +404,25 @@ theorem late_tag_formatting_incomplete :
     (let cfg : Cfg := { tagOf := fun _ => [0, 1], batch := 100, keys := [0] }
      readable (exec cfg init [.call 0 (.tok 1) (some 800) [1], .deleteTags [0]]) 0 = some (.tok 1) ∧
      readable (exec cfg init [.call 0 (.tok 1) (some 800) [0], .deleteTags [0]]) 0 = none) := by decide
+
+open CashewsVerif.TagTpl in
+/-- **A decorator's re-write carries the tags of the call that triggered it**: the recalculation of `early`, the
+recomputation of `soft` and the update of `hit` file the refreshed entry under the same key and the same tags as a miss of
+the same call would - the tags rendered from the arguments of this call, whatever the body does to them. -/
+theorem decorator_refresh_tags_are_call_time_tags (keyTpl : Tpl) (tagTpls : List Tpl) (val : Nat → List Char)
+    (body : (Nat → List Char) → (Nat → List Char)) :
+    decorRefresh keyTpl tagTpls val body = decorMiss keyTpl tagTpls val body ∧
+    (decorRefresh keyTpl tagTpls val body).tags = tagTpls.map (render val) := ⟨rfl, rfl⟩
+
+open CashewsVerif.TagTpl in
+/-- the untagged re-write files the refreshed entry under no tag at all, although the call has one (template level of
+`untagged_refresh_incomplete`) -/
+example :
+    let keyTpl : Tpl := [.lit ['r', '/'], .fld 0]
+    let tagTpl : Tpl := [.lit ['c', '/'], .fld 0]
+    let val : Nat → List Char := fun _ => ['a']
+    (decorRefresh keyTpl [tagTpl] val id).tags = [['c', '/', 'a']] ∧ (decorRefreshUntagged keyTpl [tagTpl] val id).tags = [] ∧
+    (decorRefreshUntagged keyTpl [tagTpl] val id).key = (decorRefresh keyTpl [tagTpl] val id).key := by decide
 
 section
 open CashewsVerif.TagTpl
